@@ -1275,6 +1275,7 @@ func (fv *FuncVerifier) doReturn(st *State, r *ssa.Return) {
 		results = append(results, st.get(v))
 	}
 	env := fv.postEnv(st, results)
+	env.retIdx = idx
 	basePC := st.pc
 	for i, c := range fv.fc.Ensures {
 		g := fv.evalBool(env, c.E)
